@@ -19,6 +19,7 @@ import (
 
 	f_note "github.com/transparency-dev/formats/note"
 	"github.com/transparency-dev/witness/internal/config"
+	"github.com/transparency-dev/witness/internal/persistence/inmemory"
 	"github.com/transparency-dev/witness/internal/witness"
 	"github.com/transparency-dev/witness/omniwitness"
 	"golang.org/x/mod/sumdb/note"
@@ -114,7 +115,23 @@ func loadAndReport(t *traceWriter, file string, data []byte) {
 		am = "ok:" + strings.Join(keys, ",")
 	}
 	sort.Strings(ids)
-	t.line("CFM file=%s n=%d => aslogmap=%s feeders=%d", file, len(cfg.Logs), am, nFeed)
+	// the witness itself must accept the map (omniwitness.Main passes it to witness.New)
+	wit := "n/a"
+	if err == nil {
+		wit = "ok"
+		func() {
+			defer func() {
+				if r := recover(); r != nil {
+					wit = "panic"
+				}
+			}()
+			k := genWitKey(rand.New(rand.NewSource(7)), "cfg-wit", "cosigv1")
+			if _, werr := witness.New(witness.Opts{Persistence: inmemory.NewPersistence(), Signers: []note.Signer{k.signer}, KnownLogs: m}); werr != nil {
+				wit = "err:" + hx([]byte(werr.Error()))
+			}
+		}()
+	}
+	t.line("CFM file=%s n=%d => aslogmap=%s feeders=%d witness=%s", file, len(cfg.Logs), am, nFeed, wit)
 }
 
 func scenarioConfig(t *traceWriter, rng *rand.Rand) {
